@@ -460,13 +460,14 @@ def r7_market(ctx, F):
     ctx.touched(sp)
     so = sp.one_call('VecDeque::split_off', what='split_off')
     pushes = [c for c in sp.calls_to('Vec::push')]
-    emp = [c for c in sp.calls_to('VecDeque::is_empty') if noref(sp.val(c.args[0])) == V('call', so.bb)]
+    from taint import origins as _origins
+    emp = [c for c in sp.calls_to('VecDeque::is_empty') if _origins(sp, c.args[0]) == {so}]
     cut = []
     for c in emp:
         cut += sp.branch(c, True)
     r = sp.reach([so.target], cut_edges=cut, cut_blocks=[p.bb for p in pushes])
     lost = so.bb in r or any(x in r for x in sp.returns)
-    okv = any(noref(sp.val(p.args[1])) == V('call', so.bb) for p in pushes)
+    okv = any(_origins(sp, p.args[1]) == {so} for p in pushes)
     ctx.check(not lost and okv, rule, 'split-pieces-are-pushed', sp,
               good='every non-empty piece split off the local queue is pushed to the market',
               bad='split_and_push: a piece split off the worker\'s queue can be dropped without being '
